@@ -15,7 +15,7 @@ from ..models import array as A
 
 PROPERTY = 'C14'
 VACUITY = dict(need_ok=['getitem', 'getslice', 'setitem', 'setslice', 'delitem', 'delslice', 'append', 'extend', 'insert', 'pop', 'reverse', 'count', 'equals', 'copy',
-                        'astype', 'setdtype', 'byteswap', 'scalarop', 'arrayop', 'iop', 'bitop', 'compare', 'unary', 'promote'],
+                        'astype', 'setdtype', 'byteswap', 'scalarop', 'arrayop', 'iarrayop', 'iop', 'bitop', 'compare', 'unary', 'promote'],
                need_rej=['getitem', 'setitem', 'append', 'extend', 'pop', 'reverse', 'scalarop', 'iop', 'byteswap', 'setslice'], min_outcomes=300)
 
 STR = {'<H': 'uintle16', '>b': 'int8', '=l': 'intle32', 'p4binary8': 'p4binary', 'bool': 'bool', 'bfloat': 'bfloat', 'e2m1mxfp': 'e2m1mxfp', 'e3m2mxfp': 'e3m2mxfp'}
@@ -279,6 +279,18 @@ def build_menu(key, n, has_trailing, menu):
                 E('arrayop', (oname, 'self'), f"a {sym} a", True)
                 E('arrayop', (oname, 'ones'), f"a {sym} Array({key!r}, [1] * len(a))", True)
                 E('arrayop', (oname, 'shorter'), f"a {sym} Array({key!r}, [1] * (len(a) + 1))", True)
+            for oname, sym in (('floordiv', '//'), ('truediv', '/'), ('mod', '%')):
+                if key == 'bool':
+                    continue      # UNSPECIFIED: a fractional result on the bool dtype (as for the scalar forms)
+                E('arrayop', (oname, 'self'), f"a {sym} a", True)
+                E('arrayop', (oname, 'twos'), f"a {sym} Array({key!r}, [2] * len(a))", True)
+            # in-place forms with an Array operand
+            for oname in ('add', 'sub', 'mul', 'floordiv', 'truediv', 'mod'):
+                if key == 'bool' and oname in ('floordiv', 'truediv', 'mod'):
+                    continue
+                E('iarrayop', (oname, 'twos'), f"a.__i{oname}__(Array({key!r}, [2] * len(a)))", True)
+                E('iarrayop', (oname, 'self'), f"a.__i{oname}__(a)", True)
+                E('iarrayop', (oname, 'shorter'), f"a.__i{oname}__(Array({key!r}, [2] * (len(a) + 1)))", True)
             # array operands: every operator against the array itself (all pairs equal) and against ones
             for oname, sym in (('lt', '<'), ('le', '<='), ('gt', '>'), ('ge', '>='), ('eq', '=='), ('ne', '!=')):
                 E('compare', (oname, 'self'), f"a {sym} a", True)
@@ -495,16 +507,24 @@ def model_step(st, ev):
         else:
             res = [OPS[oname](v, other) for v in vals]
         return OK(arr('bool', ['1' if r else '0' for r in res]), same)
-    if op == 'arrayop':
+    if op in ('arrayop', 'iarrayop'):
         oname, what = a
         vals = [dt.dec(c) for c in chunks]
         if what == 'shorter':
             return EXC(same)
-        others = vals if what == 'self' else [1] * n
+        others = vals if what == 'self' else [2 if what == 'twos' else 1] * n
         try:
             new = [dt.enc(_res(dt, OPS[oname](x, y))) for x, y in zip(vals, others)]
-        except (A.NoFit, OverflowError):
+        except (A.NoFit, OverflowError, ZeroDivisionError, ValueError, TypeError):
             return EXC(same)
+        if op == 'iarrayop':
+            # UNSPECIFIED: whether `a op= Array` works in place or rebinds to a new Array (the statement fixes the values only), and whether
+            # an in-place operator keeps the trailing bits (as for the scalar in-place forms). The returned Array must hold the mapped values.
+            joined = ''.join(new)
+            alts = OK(arr(key, new, tr), (key, joined + tr)) + OK(arr(key, new), same)
+            if tr:
+                alts += OK(arr(key, new), (key, joined)) + OK(arr(key, new, tr), same)
+            return alts
         return OK(arr(key, new), same)
     if op in ('bitop', 'ibitop'):
         oname, what = a
